@@ -15,7 +15,7 @@ def run_c03(res, tier):
     asmcore.run_asm_core(res, ast, thorough=(tier == "thorough"))
     import jit
     jit.run_jit_rules(res, ast, ["CALL-SAVE", "CALL-PROTO", "JIT-TERM", "PROBE-SEQ", "PROBE-DIR-JIT", "ABI-OFFSETS",
-                                 "LIM-JIT", "FRAME", "BR-JIT"])
+                                 "LIM-JIT", "FRAME", "BR-JIT", "REG-COUNT"])
     import mirrules
     from mir import load_facts
     mirrules.run_layout_rules(res, load_facts(), ast)
@@ -373,7 +373,7 @@ def run_c13(res, tier):
     det.run_exec_freeze(res, ast)
     sel.run_sel(res, ast, rules=("SEL-COVER",))
     import jit
-    jit.run_jit_rules(res, ast, ["MC-ADDR"])
+    jit.run_jit_rules(res, ast, ["MC-ADDR", "REG-COUNT"])
     import mirrules
     from mir import load_facts
     fx = load_facts()
